@@ -110,6 +110,17 @@ def main():
             chk.violations.append({'key': 'C06:panicking-task-blocks-the-pool', 'text': 'after a task panics the remaining tasks are never run: N=%d tasks=%s schedule=%s final=%s' % (N, jobs, wit['schedule'], wit['final']),
                                    'witness': {'kind': 'pool', 'N': N, 'tasks': ''.join({'panic': 'p', 'instant': 'i', 'rv': 'r'}[j] for j in jobs)}})
         elif r == 'unknown': chk.inconclusive.append({'status': 'solver-unknown', 'error': 'pool panic bmc'})
+    # simultaneous capacity: N connections that all have to be in flight at once (a stalled connection next to a live one is the
+    # N=2 instance) must all be served by N workers -- a queue lock held while a job runs serialises the pool
+    for (N, jobs) in ([(2, ['rv', 'rv'])] if quick else [(2, ['rv', 'rv']), (3, ['rv', 'rv', 'rv']), (2, ['instant', 'rv', 'rv'])]):
+        K = len(jobs) * 6 + N + 1
+        r, wit, dt = P.bmc(auto, N, jobs, K, 'stuck'); nq += 1
+        chk.stats['queries'] += 1; chk.stats[r] += 1; chk.stats['solver_s'] += dt
+        chk.samples.append({'obligation': 'N simultaneous connections on N workers', 'N': N, 'tasks': jobs, 'query': 'stuck state with an unfinished task', 'result': r})
+        if r == 'sat':
+            chk.violations.append({'key': 'C06:fewer-than-N-simultaneous-connections', 'text': 'N=%d workers cannot hold %s connections in flight at once: schedule=%s final=%s' % (N, jobs, wit['schedule'], wit['final']),
+                                   'witness': {'kind': 'pool', 'N': N, 'tasks': ''.join({'panic': 'p', 'instant': 'i', 'rv': 'r'}[j] for j in jobs)}})
+        elif r == 'unknown': chk.inconclusive.append({'status': 'solver-unknown', 'error': 'pool capacity bmc'})
     # (i) the connection job never unwinds: skeleton obligations of C04 (transport faults, abstract and real application)
     cases = []
     for entry in ('job', 'process'):
